@@ -51,7 +51,20 @@ func drawTaxaNames(rt *rapid.T, n int) []string {
 	// a salt makes the names of (nearly) every case new to the process: state memoised per taxon name by an earlier case
 	// must not hide what happens when a name is seen for the first time
 	salt := rapid.IntRange(0, 9999).Draw(rt, "namesalt")
-	switch rapid.IntRange(0, 7).Draw(rt, "naming") {
+	switch rapid.IntRange(0, 8).Draw(rt, "naming") {
+	case 8:
+		// characters that are ordinary in a label but special somewhere else: format verbs, multi-byte runes, XML and shell characters
+		var out []string
+		marks := []string{"%d", "é", "日本", "#", "@", "+", "|", "%s%", "&", "ß_"}
+		for i := 0; i < n; i++ {
+			m := marks[(i+salt)%len(marks)]
+			if i%2 == 0 {
+				out = append(out, "t"+strconv.Itoa(i)+m)
+			} else {
+				out = append(out, m+"t"+strconv.Itoa(i))
+			}
+		}
+		return out
 	case 6:
 		var out []string
 		for i := 0; i < n; i++ {
